@@ -911,9 +911,10 @@ Inductive link := LBoth (f : cfun) | LCallback (f : cfun) | LErrback (f : cfun).
 
 (* statements of CallUnslicer.reportViolation *)
 Inductive rstmt :=
-| RIfAbortReturn                    (* if f.value.args[0] == "ABORT received": return f *)
+| RIfAbort (b : list rstmt)         (* if f.value.args[0] == "ABORT received": *)
 | RIfStage (b : list rstmt)         (* if self.stage > 0: *)
 | RCallFailed                       (* self.broker.callFailed(f, self.reqID) *)
+| RDelActive                        (* del self.broker.activeLocalCalls[self.reqID]: KeyError when the id was never registered *)
 | RReturnF.                         (* return f *)
 """
 
@@ -1046,6 +1047,31 @@ def callfinished_stmts(stmts, top=True):
     return out
 
 
+def report_violation_stmts(stmts):
+    """CallUnslicer.reportViolation, statement by statement; the two tests may guard any block of the known statements (what the
+    block does when the request id is 0 -- a one-way call, never registered -- is the interpreter's business: lib/Callee.v)"""
+    rs = []
+    for st in stmts:
+        if isinstance(st, ast.Expr) and isinstance(st.value, ast.Constant):
+            continue
+        t = U(st)
+        if isinstance(st, ast.If) and not st.orelse and U(st.test) == "f.value.args[0] == 'ABORT received'":
+            rs.append("RIfAbort " + coq_prog(report_violation_stmts(st.body)))
+        elif isinstance(st, ast.If) and not st.orelse and U(st.test) == "self.stage > 0":
+            rs.append("RIfStage " + coq_prog(report_violation_stmts(st.body)))
+        elif t == "self.broker.callFailed(f, self.reqID)":
+            rs.append("RCallFailed")
+        elif t == "del self.broker.activeLocalCalls[self.reqID]":
+            rs.append("RDelActive")
+        elif t == "return f":
+            rs.append("RReturnF")
+        elif isinstance(st, ast.Return):
+            raise P.Untranslatable("CallUnslicer.reportViolation returns " + t)     # (absorbing is gen_send's pb_unslicers_propagate)
+        else:
+            raise P.Untranslatable("CallUnslicer.reportViolation: unexpected statement " + t[:100])
+    return rs
+
+
 def gen_callee():
     br = P.load("broker.py")
     cm = P.load("call.py")
@@ -1087,24 +1113,8 @@ def gen_callee():
          "CallUnslicer.receiveChild: registration of the request id changed: %s" % b0)
     out.append("Definition registers_reqid : bool := true.   (* stage 0: activeLocalCalls[reqID] = self unless reqID == 0 *)")
     rv = P.find_def(cm, "CallUnslicer.reportViolation")
-    rs = []
-    for st in rv.body:
-        if isinstance(st, ast.Expr) and isinstance(st.value, ast.Constant):
-            continue
-        t = U(st)
-        if t == "if f.value.args[0] == 'ABORT received':\n    return f":
-            rs.append("RIfAbortReturn")
-        elif isinstance(st, ast.If) and U(st.test) == "self.stage > 0" and not st.orelse and [U(x) for x in st.body] == ["self.broker.callFailed(f, self.reqID)"]:
-            rs.append("RIfStage [RCallFailed]")
-        elif t == "self.broker.callFailed(f, self.reqID)":
-            rs.append("RCallFailed")
-        elif t == "return f":
-            rs.append("RReturnF")
-        elif isinstance(st, ast.Return):
-            raise P.Untranslatable("CallUnslicer.reportViolation returns " + t)     # (absorbing is gen_send's pb_unslicers_propagate)
-        else:
-            raise P.Untranslatable("CallUnslicer.reportViolation: unexpected statement " + t[:100])
-    out.append("Definition report_violation_prog : list rstmt := %s." % coq_prog(rs))
+    need([a.arg for a in rv.args.args] == ["self", "f"], "CallUnslicer.reportViolation signature changed")
+    out.append("Definition report_violation_prog : list rstmt := %s." % coq_prog(report_violation_stmts(rv.body)))
     # InboundDelivery.logFailure: does it format the target / the arguments (application objects) eagerly?
     lf = P.find_def(cm, "InboundDelivery.logFailure")
     eager = False
